@@ -51,6 +51,33 @@ def echo_hazards() -> Iterator[bytes]:
         yield D.header(0, 1, 0, 0, 0, id_=1) + name + struct.pack(">HH", 255, 1)
 
 
+def response_hazards() -> Iterator[bytes]:
+    """Responses whose *rdata* names (pointer alias, SRV target, NSEC next name) or owner names carry a label that
+    decodes with replacement characters and no longer fits 63 bytes when encoded again: the record is cached and later
+    re-encoded as a known answer by the browser's or the lookup's own queries."""
+    def lab(b: bytes) -> bytes:
+        return bytes([len(b)]) + b
+
+    def nm(*labels: bytes) -> bytes:
+        return b"".join(lab(l) for l in labels) + b"\x00"
+
+    def rr(owner: bytes, type_: int, class_: int, ttl: int, rdata: bytes) -> bytes:
+        return owner + struct.pack(">HHIH", type_, class_, ttl, len(rdata)) + rdata
+
+    for ln in (1, 2, 20, 21, 22, 23, 31, 32, 62, 63):
+        for f in (b"\xff", b"\xc3", b"\xe2\x82"):
+            h = (f * ln)[:ln]
+            for typ in (b"_b", b"_c"):
+                alias = nm(h, typ, b"_tcp", b"local")
+                yield D.header(0x8400, 0, 1, 0, 0) + rr(nm(typ, b"_tcp", b"local"), 12, 1, 4500, alias)
+            yield D.header(0x8400, 0, 1, 0, 0) + rr(nm(b"pending", b"_c", b"_tcp", b"local"), 33, 0x8001, 120,
+                                                    struct.pack(">HHH", 0, 0, 80) + nm(h, b"local"))
+            yield D.header(0x8400, 0, 2, 0, 0) + rr(nm(b"_c", b"_tcp", b"local"), 12, 1, 4500, nm(b"pending", b"_c", b"_tcp", b"local")) \
+                + rr(nm(b"pending", b"_c", b"_tcp", b"local"), 33, 0x8001, 120, struct.pack(">HHH", 0, 0, 80) + nm(h, b"local"))
+            yield D.header(0x8400, 0, 1, 0, 0) + rr(nm(h, b"local"), 1, 0x8001, 120, bytes([10, 0, 0, 77]))
+            yield D.header(0x8400, 0, 1, 0, 0) + rr(nm(b"h1", b"local"), 47, 0x8001, 120, nm(h, b"local") + b"\x00\x01\x40")
+
+
 def oversize() -> Iterator[bytes]:
     q = wire.query([("Q", TA, 12, 1)], id_=5)
     r = wire.response([("PTR", TB, 1, 4500, "big._b._tcp.local.")])
@@ -65,6 +92,7 @@ def corpus(tier: str) -> List[Tuple[str, bytes]]:
     seeds = D.seeds()
     out: List[Tuple[str, bytes]] = []
     out += [("hazard", d) for d in echo_hazards()]
+    out += [("rhazard", d) for d in response_hazards()]
     out += [("oversize", d) for d in oversize()]
     out += [("family", d) for d in D.families("quick")]
     nseeds = 3 if tier == "quick" else len(seeds)
@@ -198,7 +226,7 @@ def run(tier: str, seed: int) -> Tuple[Stats, str, List[str], Dict[str, Any]]:
     sizes: Dict[str, int] = {}
     singles: List[Tuple[str, bytes, int]] = []
     for kind, d in corp:
-        if kind in ("hazard", "oversize", "family"):
+        if kind in ("hazard", "rhazard", "oversize", "family"):
             srcs = range(len(SOURCES))
         elif kind == "mutation":
             srcs = (0, 1) if tier == "quick" else range(len(SOURCES))
